@@ -31,7 +31,9 @@ RULE = ("case = one compiled configuration (mesh kind x element order 1..4 x qua
         "entries shuffled) -- and both declarations must give the identical matrix, equal to the Hessian. Multi-block classes: "
         "multi_hyper/multi_j2/multi_visco = same model in 2-4 blocks (transparency against the single-block factory); "
         "multi_mixed = 2-4 blocks carrying DIFFERENT models and/or the same model with constants decades apart, random dictionary "
-        "order (K vs Hessian of the multi-block energy, symmetry). Non-trivial = at least one comparison with a BC set that is neither empty nor full at a "
+        "order (K vs Hessian of the multi-block energy, symmetry); multi_contrast = same model in 2-3 blocks with moduli apart by exact "
+        "factors 2^-20..2^-50 (1e6..1e15). size_hvp = distorted order-1 meshes with 1104/2244/4324 elements, statics and Newmark, "
+        "Hessian-vector-product oracle. scale = one small configuration re-built at moduli x 2^k over +-30 decades. Non-trivial = at least one comparison with a BC set that is neither empty nor full at a "
         "non-zero displacement (path-dependent models: at an evolved internal state with >= 1 yielded / relaxed "
         "quadrature point); distinct = canonical hash of the configuration.")
 ASSUMPTIONS = [
@@ -46,6 +48,15 @@ ASSUMPTIONS = [
     "step at which inertia and stiffness balance, so neither term hides below the tolerance",
     "pressure-projection configurations use element order >= 2: on linear triangles J is constant per element and the projection is "
     "the identity (the harness measures max|JBar - J| per draw and counts only draws where the projection is active under cmp:pp_*)",
+    "size class (1100/2200/4300 linear triangles): the dense Hessian is replaced by harness-evaluated Hessian-vector products "
+    "jvp(grad E)(v); K v is compared row by row against 1e-10*((|K||v|)_i + |Hv|_i) for random dense vectors and for vectors "
+    "supported on single elements (first, middle, last, both sides of every multiple of 1024); unknown numbering taken from "
+    "DofManager.unknownIndices (C14's subject)",
+    "absolute-scale class: all moduli (and the density) multiplied by 2^k, k in [-100, 100]; power-of-two factors commute with "
+    "IEEE rounding, so K(2^k E) = 2^k K(E) is demanded to 8 ulp per entry and the stored sparsity pattern must not change; the same "
+    "relation is required of the harness's dense Hessian (oracle self-check, else inconclusive)",
+    "entry-wise clause: |K-H|_ij <= 1e-10*sqrt(rowmax_i(H) rowmax_j(H)) on every dense comparison (observed <= 8e-5 of it, also with "
+    "stiff/soft block contrasts up to 1e15), next to the global 1e-10*max|H| clause",
     "the numpy small-strain reference (route C) takes the shape-function tables and quadrature volumes from the library's "
     "FunctionSpace (those are C03's subject)",
     "CHOLMOD is not involved; scipy.sparse coo->csc conversion sums duplicates",
@@ -73,6 +84,12 @@ REQUIRED = {
         "class:dynamics": 4, "class:static_j2": 2, "class:static_visco": 1, "class:multi_j2": 1,
         "class:repeated_stretch": 1, "repeated_stretch_controls": 2,
         "class:multi_mixed": 3, "cmp:multi_mixed": 20, "mixed_material_configs": 3,
+        "class:multi_contrast": 2, "contrast_band:1e6": 4, "contrast_band:1e12": 4, "contrast_band:1e15": 4,
+        "class:size_hvp": 3, "size_band:>1024": 1, "size_band:>2048": 1, "size_band:>4096": 1, "size_configs:static:>2048": 1,
+        "size_configs:dynamics:>2048": 1, "size_configs:static:>4096": 1, "size_configs:dynamics:>4096": 1,
+        "hvp_checks": 200, "hvp_last_element_vectors": 12, "size_symmetry_checks": 12,
+        "class:scale": 2, "scale_comparisons": 24, "scale_band:<=1e-20": 4, "scale_band:1e-20..1e-10": 4, "scale_band:1e-10..1": 4,
+        "scale_band:1..1e10": 4, "scale_band:1e10..1e20": 2, "scale_band:>=1e20": 4,
         "declaration_metamorphic_checks": 150, "bc_decl:overlap": 20, "bc_decl:duplicate_entry": 20, "bc_decl:repeated_members": 20,
         "bc_decl:subset_superset": 20, "bc_decl:empty_sets": 10,
     },
@@ -115,6 +132,38 @@ def build_cases(tier, seed):
         if any(cfg.is_path_dependent(m) for m in c["materials"]):
             c["hist_steps"] = 2
 
+    def add_contrast(i, model, ks, order, meshkind):
+        """same model in len(ks)+1 blocks, block j softer than block 0 by the exact factor 2^-ks[j-1] (stiff/soft contrast 1e6..1e15)"""
+        add_mixed(100 + i, [model] * (len(ks) + 1), order, meshkind)
+        c = cases[-1]
+        c["cls"] = "multi_contrast"
+        c["group"] = "multi_contrast%d" % i
+        for j, k in enumerate(ks):
+            c["materials"][j + 1] = cfg.scale_moduli(c["materials"][0], 2.0 ** (-k))
+        c["contrast_ks"] = [int(k) for k in ks]
+
+    def add_size(i, nx, ny, matname, affine="shear"):
+        s = derive_seed(seed, PROPERTY, "size_hvp", i)
+        rng = rng_of(s)
+        mat = cfg.material_spec(rng, matname, with_density=True)
+        cases.append({"cls": "size_hvp", "group": "size_hvp%d" % i, "seed": derive_seed(seed, PROPERTY, "size_hvp", i, "run"),
+                      "mesh": {"kind": "delaunay", "order": 1, "nx": nx, "ny": ny, "seed": int(rng.integers(1 << 30)), "affine_kind": affine,
+                               "graded": bool(i % 2)},
+                      "quad": 2, "material": mat, "factories": ["static", "dynamics"], "beta": float(rng.uniform(0.2501, 0.5)),
+                      "gamma": float(rng.uniform(0.5, 1.0)), "cost": 12.0 + 2 * (nx - 1) * (ny - 1) / 250.0})
+
+    def add_scale(i, matname, factory, ks, order, meshkind):
+        s = derive_seed(seed, PROPERTY, "scale", i)
+        rng = rng_of(s)
+        mat = cfg.material_spec(rng, matname, with_density=(factory == "dynamics"))
+        mat["E"] = float(rng.uniform(1.0, 2.0))      # O(1) reference; the absolute scale is what the class varies
+        if "density" in mat:
+            mat["density"] = float(rng.uniform(0.5, 2.0))
+        cases.append({"cls": "scale", "group": "scale%d" % i, "seed": derive_seed(seed, PROPERTY, "scale", i, "run"),
+                      "mesh": cfg.mesh_spec(rng, meshkind, order, small=True), "quad": 2 * order, "material": mat, "factory": factory,
+                      "ks": [int(k) for k in ks], "beta": float(rng.uniform(0.2501, 0.5)), "gamma": float(rng.uniform(0.5, 1.0)),
+                      "cost": 8.0 + 5.0 * len(ks)})
+
     kinds = ["delaunay", "graded", "hole", "structured", "aniso", "shear"]
     if tier == "quick":
         dr, nb = 2, 4
@@ -153,6 +202,16 @@ def build_cases(tier, seed):
         add_mixed(0, ["neo_adagio", "neo_adagio"], 2, "delaunay")
         add_mixed(1, ["gent", "lin_gl", "neo_coupled"], 1, "graded", direct=True)
         add_mixed(2, ["neo_adagio", "lin_linear", "gent", "neo_adagio"], 2, "hole", pp=1)
+        # stiff/soft contrasts (entry-wise comparison): 1e6 and 1e15 in one 3-block configuration, 1e12 in a 2-block one
+        add_contrast(0, "neo_adagio", [20, 50], 1, "delaunay")
+        add_contrast(1, "lin_linear", [40], 2, "graded")
+        # element counts just above 1024 / 2048 / 4096 (Hessian-vector-product oracle), statics and Newmark
+        add_size(0, 24, 25, "neo_adagio")
+        add_size(1, 34, 35, "gent", affine="aniso")
+        add_size(2, 47, 48, "neo_coupled")
+        # absolute scale: the same configuration at moduli x 2^k over +-30 decades
+        add_scale(0, "lin_linear", "static", [-100, -66, -40, -24, 24, 60, 100], 1, "delaunay")
+        add_scale(1, "neo_adagio", "dynamics", [-90, -50, -34, -10, 10, 44, 90], 2, "graded")
         # internal-variable update under block splitting: one cheap path-dependent multi-block configuration
         add("multi_j2", 0, factory="multi", matname=None, j2=("small", "linear", False), mode="plane strain", pp=None, order=1,
             meshkind="delaunay", nblocks=2, draws=dr, nbc=nb, direct=False, hist_steps=2)
@@ -234,6 +293,16 @@ def build_cases(tier, seed):
              ([("j2", "large", "linear", False), "lin_gl"], 1, None), (["visco1", "visco1"], 1, None), ([J2S, J2S, "gent"], 2, None)]
     for i, (names, o, pp_) in enumerate(mixes):
         add_mixed(i, names, o, kinds[i % 6], pp=pp_, draws=3, nbc=nb, direct=(i % 4 == 1))
+    for i, (model, ks, o) in enumerate([("neo_adagio", [20, 50], 1), ("lin_linear", [40], 2), ("gent", [30, 45], 2), ("neo_coupled", [50], 1),
+                                        ("lin_gl", [20, 33, 46], 1), ("neo_adagio", [36], 3), (J2S, [40], 1), ("visco1", [43], 1)]):
+        add_contrast(i, model, ks, o, kinds[i % 6])
+    for i, (nx, ny, m) in enumerate([(24, 25, "neo_adagio"), (34, 35, "gent"), (47, 48, "neo_coupled"), (25, 23, "lin_gl"), (33, 34, "neo_coupled"),
+                                     (46, 47, "neo_adagio"), (36, 60, "lin_linear"), (66, 67, "neo_adagio")]):
+        add_size(i, nx, ny, m, affine=["shear", "aniso", "rot"][i % 3])
+    allk = [-100, -83, -66, -50, -40, -34, -24, -10, 10, 24, 34, 44, 60, 80, 100]
+    for i, (m, fac, o) in enumerate([("lin_linear", "static", 1), ("neo_adagio", "dynamics", 2), ("gent", "static", 2), ("lin_gl", "dynamics", 1),
+                                     ("neo_coupled", "static", 3), ("lin_linear", "dynamics", 2)]):
+        add_scale(i, m, fac, allk[i % 2::2] if i < 4 else allk, o, kinds[i % 6])
     plan = [("lin_log", None, "plane strain", 1), ("lin_log", None, "axisymmetric", 2), (None, ("large", "voce", False), "plane strain", 1),
             ("visco1", None, "plane strain", 1)]
     for i, (m, j2, mode, o) in enumerate(plan):
@@ -468,6 +537,10 @@ def run_case(case):
     from vlib.oracles import c02_reference as ref
 
     res = Res(case)
+    if case["cls"] in ("size_hvp", "scale"):
+        from vlib.oracles import c02_sizescale as ss
+        helpers = {"_lib": _lib, "_LibraryRaised": _LibraryRaised, "_scaled_field": _scaled_field}
+        return (ss.run_size_case if case["cls"] == "size_hvp" else ss.run_scale_case)(case, res, helpers)
     rng = rng_of(case["seed"])
     mat_spec = case["material"]
     mname = mat_spec["name"]
@@ -833,6 +906,10 @@ def run_case(case):
             detail = {"bc": kind, "n_unknown": nu_, "scale": scale, "entry": [int(ij[0]), int(ij[1])], "K": float(K[ij]), "H": float(Huu[ij]),
                       "factory": factory, "mode": mode, "pp": pp, "material": mname, "order": order, "dt": dt}
             res.bound("stiffness_vs_hessian", err, TOL_H * scale, detail, mech)
+            # entry by entry against each entry's own row/column scale: a lost soft sub-block cannot hide below the global maximum
+            from vlib.oracles.c02_sizescale import entrywise_worst
+            eo, ea, eij = entrywise_worst(K, Huu, TOL_H)
+            res.bound("stiffness_vs_hessian_entrywise", eo, ea, dict(detail, entry=[eij[0], eij[1]], K=float(K[eij]), H=float(Huu[eij])), mech)
             res.bound("symmetry", float(onp.max(onp.abs(K - K.T))), TOL_H * max(float(onp.max(onp.abs(K))), EPS),
                       {"bc": kind, "factory": factory, "material": mname}, mech)
             if mech is not None:
@@ -873,6 +950,8 @@ def run_case(case):
                 res.count("cmp:axisymmetric")
             if mixed:
                 res.count("cmp:multi_mixed")
+            for k_ in case.get("contrast_ks", []):
+                res.count("contrast_band:1e%d" % (3 * int(round(k_ * math.log10(2.0) / 3.0))))
             if has_j2:
                 res.count("cmp:j2")
                 if plastic_now:
